@@ -866,6 +866,10 @@ pub fn jobs_c05(tier: Tier) -> Vec<Job> {
     many.max_farms = 12;
     many.state_oracles = vec![c05_drain];
     v.push(explore_job(many, tier.pick(2, 3), Caps::default()));
+    // the epoch manager's owner restarted the epoch numbering in the middle of the history (custody inequality only: what else
+    // the farm manager should do across a restart is outside the listed properties)
+    let restart = FuChecker::new("c05-fu-epoch-restart", vec!["F19"], FAlpha::RewardCore, vec![c05_custody]);
+    v.push(explore_job(restart, tier.pick(2, 3), Caps::default()));
     // farm funding under the other fee configurations (zero fee, fee in the reward denom): every fund shape of the farm alphabet
     for (i, fee) in [("uusdc", 0u128), ("uom", 0), ("uusdc", 1000)].into_iter().enumerate() {
         let mut c = FuChecker::new(&format!("c05-fu-farms-feecfg{}", i + 1), vec!["F0", "F2"], FAlpha::Farms, vec![c05_custody]);
